@@ -2218,7 +2218,11 @@ func possibleDynTypes(v ssa.Value, depth int) ([]types.Type, bool) {
 		}
 		for _, e := range entries {
 			var f *ssa.Function
-			switch ev := e.val.(type) {
+			ev0 := e.val
+			if ct, isCT := ev0.(*ssa.ChangeType); isCT {
+				ev0 = ct.X // an entry converted to the table's named function type
+			}
+			switch ev := ev0.(type) {
 			case *ssa.Function:
 				f = ev
 			case *ssa.MakeClosure:
